@@ -147,6 +147,19 @@ impl Prop for C11 {
     }
 
     fn check(c: &Case, obs: &mut Obs) {
+        // history round (core::history_round): the same inputs with `graphemes` flipped in between
+        if history_round(
+            c,
+            obs,
+            |c| {
+                let mut v = c.clone();
+                v.graphemes = !v.graphemes;
+                v
+            },
+            Self::check,
+        ) {
+            return;
+        }
         let g = c.graphemes;
         let s = c.s.as_str();
         obs.tag(if g { "mode-graphemes" } else { "mode-code-points" });
